@@ -160,7 +160,7 @@ PROPS['C08'] = dict(
                'WHERE seek lands: search / seek are proved to sit, at every level, on the slot that level\'s own binary search answers for the key and to report the leaf\'s exact-hit flag; what that slot is (slot-before rule) is proved per node in unit pagenode. Termination of every loop of the cursor is proved (the loop in Cursor::next that skips emptied leaves by a position numbering, prelude/cursor_slots.rs). Byte-string order is an uninterpreted strict total order.',
     assumptions=[A_TOOLS, 'Cursor::{seek,current,next} by assumed contract over an abstract ascending key sequence', 'byte-string comparison is a strict total order (axiom_key_order); rule R10: `a < *b` on &[u8] compares the slices',
                  'the RangeBounds implementation agrees with its vstd specification (true for every std range type and (Bound, Bound))'],
-    not_covered=['the identification of the cursor unit\'s node_slot / node_exact (what each node answers for a key) with PageNode_index of unit pagenode is by name (same real function, two units), not a machine-checked link'],
+    not_covered=['that a seek lands on the key or an immediate neighbour and that a search finds a key iff it is present are now THEOREMS (prelude/cursor_lookup.rs, checked in unit cursor) over the abstract tree, under the hypotheses slot_rule (the per-node clauses proved on PageNode::index in unit pagenode; identified by name, same real function in two units), bst (the tree read is a search tree: C05 of the state) and keys_canon; the step from "left of the path" to "smaller in-order number" is on paper'],
 )
 
 A_TREEIF = 'the tree a cursor walks is an abstract interface (prelude/cursor_tree.rs): branch nodes are never empty, children are strictly lower (finite height), the shape does not change while the cursor walks'
